@@ -170,6 +170,53 @@ var tacticalFens = []string{
 	"5k2/8/5K2/8/8/8/8/3R4 w - - 98 80",
 }
 
+// stalemateTraps: a pawn on its initial rank blocked by an enemy pawn directly in front of it (the square two ahead is
+// empty), its king on the back rank next to it, the enemy king at distance two: the side to move can stalemate, mate or
+// release. Pawn files h, d (level 0) or all files; both colours by mirroring; the side with the free king to move.
+func stalemateTraps(level int) []string {
+	var res []string
+	files := []int{7, 3}
+	if level > 0 {
+		files = []int{0, 1, 2, 3, 4, 5, 6, 7}
+	}
+	for _, f := range files {
+		for dk := -1; dk <= 1; dk++ {
+			bkf := f + dk
+			if bkf < 0 || bkf > 7 {
+				continue
+			}
+			bk := 56 + bkf
+			for wk := 0; wk < 64; wk++ {
+				dx, dy := wk%8-bk%8, wk/8-bk/8
+				if dx < 0 {
+					dx = -dx
+				}
+				if dy < 0 {
+					dy = -dy
+				}
+				if (dx != 2 && dy != 2) || dx > 2 || dy > 2 {
+					continue
+				}
+				var pos refchess.Pos
+				pos.EP, pos.Full, pos.White = -1, 1, true
+				pos.B[48+f], pos.B[40+f] = -refchess.Pawn, refchess.Pawn
+				if pos.B[bk] != 0 || pos.B[wk] != 0 {
+					continue
+				}
+				pos.B[bk], pos.B[wk] = -refchess.King, refchess.King
+				if !pos.Valid() || len(pos.LegalMoves()) == 0 {
+					continue
+				}
+				res = append(res, pos.FEN())
+				if level > 0 || (wk+f)%2 == 0 {
+					res = append(res, pos.Mirror().FEN())
+				}
+			}
+		}
+	}
+	return res
+}
+
 func testdataFens(n int) []string {
 	var res []string
 	seen := map[string]bool{}
